@@ -305,6 +305,7 @@ def _mechanism(diffs):
 
 
 def run_shard(spec, rec):
+    from vlib import failpoints
     from vlib.storeops import Mismatch
 
     workdir = Path(tempfile.mkdtemp(prefix='c03-'))
@@ -313,7 +314,11 @@ def run_shard(spec, rec):
         for k in ks:
             rng = random.Random(f"{spec['seed']}-{k}")
             try:
-                c = one_store(rng, workdir, rec, k)
+                clock = 'whole-second' if k % 6 == 4 else None
+                with failpoints.store_clock(clock):
+                    c = one_store(rng, workdir, rec, k)
+                if clock:
+                    rec.cls('clock:whole-second-creation-stamp')
                 if k < 2:
                     rec.sample(c)
             except Mismatch as m:
